@@ -16,14 +16,15 @@ def jobs(tier):
     out = []
     for shape in range(6):
         for nr in range(7):
-            out.append(CH(name=f"c17_three_s{shape}_r{nr}", base="c17_three", func=f"{H}:c17_three",
-                          params=[("n1", "int"), ("n2", "int"), ("size", "int"), ("v", "int"), ("k", "int")],
-                          pre=["0 <= n1 < 7", "0 <= n2 < 7", f"1 <= size <= {2 if q else 3}", "0 <= v <= 2", "0 <= k <= 2"] + (["k == v"] if q else []),
-                          fixed={"shape": shape, "nr": nr, "x": 0 if q else (shape % 4)}, timeout=600 if q else 2400,
-                          functions=["qsyntax.circuit", "circuit_from_stack", "Namer.name_let", "Namer.name_register", "Namer._choose_name", "QBlock.build",
-                                     "QGateCall.build", "starts_with_prepare", "CircuitBuilder.*", "parse_jaqal_string"],
-                          note="Q-syntax circuit == parsed text == CircuitBuilder circuit (same names); implicit prepare/measure exactly when the body does not begin "
-                               "with prepare or a subcircuit; auto-generated names differ from all user names of both kinds"))
+            for n3 in ((0, 4) if q else range(7)):
+                out.append(CH(name=f"c17_three_s{shape}_r{nr}_c{n3}", base="c17_three", func=f"{H}:c17_three",
+                              params=[("n1", "int"), ("n2", "int"), ("size", "int"), ("v", "int"), ("k", "int")],
+                              pre=["0 <= n1 < 7", "0 <= n2 < 7", f"1 <= size <= {2 if q else 3}", "0 <= v <= 2", "0 <= k <= 2"] + (["size == 2", "v + k <= 2"] if q else []),
+                              fixed={"shape": shape, "nr": nr, "n3": n3, "x": 0 if q else (shape % 4)}, timeout=600 if q else 2400,
+                              functions=["qsyntax.circuit", "circuit_from_stack", "Namer.name_let", "Namer.name_register", "Namer._choose_name", "QBlock.build",
+                                         "QGateCall.build", "starts_with_prepare", "CircuitBuilder.*", "parse_jaqal_string"],
+                              note="Q-syntax circuit == parsed text == CircuitBuilder circuit (same names); implicit prepare/measure exactly when the body does not begin "
+                                   "with prepare or a subcircuit; auto-generated names differ from all user names of both kinds (three lets, one register; names solver-chosen)"))
     out.append(CH(name="c17_let_of_let", func=f"{H}:c17_let_of_let", params=[("v", "int")], pre=["-3 <= v <= 3"], timeout=120,
                   functions=["QConstant._validate_normalize_constant"], note="Q.let accepts an existing constant as its value"))
     return out
